@@ -502,7 +502,7 @@ package secretstore
 
 //@ func (*secretStore).registerChainKey
 //@   for C02, C10
-//@   requires s != nil ==> s.datastore != nil && s.logger != nil && (isCurrentDeviceChainKey ==> locked(addr(s.messageMutex))) && (!isCurrentDeviceChainKey ==> unlocked(addr(s.messageMutex)))
+//@   requires s != nil ==> s.datastore != nil && s.logger != nil && (!isCurrentDeviceChainKey ==> unlocked(addr(s.messageMutex)))
 //@   requires group != nil && devicePublicKey != nil && deviceChainKey != nil
 //@   requires s != nil ==> deviceChainKey.Counter + s.preComputedKeysCount < 18446744073709551616
 //@   modifies dsv(s.datastore), dsh(s.datastore), lockstate(addr(s.messageMutex)), lockgen(addr(s.messageMutex))
@@ -518,3 +518,67 @@ package secretstore
 //@            dsh(s.datastore)[k_pre(bytes(group.PublicKey), pkv(devicePublicKey), deviceChainKey.Counter + j)]
 //@         && dsv(s.datastore)[k_pre(bytes(group.PublicKey), pkv(devicePublicKey), deviceChainKey.Counter + j)] == mkiter(bytes(deviceChainKey.ChainKey), bytes(group.PublicKey), j))
 //@   ensures [C02.register.unlock] s != nil ==> lockstate(addr(s.messageMutex)) == old(lockstate(addr(s.messageMutex)))
+
+//@ # ======================= C05: chain-key announcements =======================
+//@ # nonce of a group: its identifier copied into a zeroed [24]byte (first 24 of the 32 bytes)
+//@ spec func gnonce(gid Bytes) Bytes = ite(blen(gid) >= 24, bslice(gid, 0, 24), bcat(gid, bzero(24 - blen(gid))))
+
+//@ func groupIDToNonce
+//@   for C05
+//@   safety
+//@   requires group != nil
+//@   ensures [C05.nonce] result != nil && fresh(result) && blen(bytes(result)) == 24 && bytes(result) == gnonce(bytes(group.PublicKey))
+
+//@ func encryptDeviceChainKey
+//@   for C05
+//@   safety
+//@   requires localDevicePrivateKey != nil && remoteMemberPubKey != nil && deviceChainKey != nil && group != nil
+//@   ensures [C05.encrypt] ret1 == nil ==> bytes(ret0) == sbox_seal(enc_dck(bytes(deviceChainKey.ChainKey), deviceChainKey.Counter),
+//@        gnonce(bytes(group.PublicKey)), boxkey(e2c_priv(skv(localDevicePrivateKey)), e2c_pub(pkv(remoteMemberPubKey))))
+
+//@ func decryptDeviceChainKey
+//@   for C05
+//@   safety
+//@   requires localMemberPrivateKey != nil && senderDevicePubKey != nil && group != nil
+//@   ensures [C05.decrypt] ret1 == nil ==> ret0 != nil && fresh(ret0)
+//@     && sbox_ok(bytes(encryptedDeviceChainKey), gnonce(bytes(group.PublicKey)), boxkey(e2c_priv(skv(localMemberPrivateKey)), e2c_pub(pkv(senderDevicePubKey))))
+//@     && bytes(ret0.ChainKey) == dck_ck(sbox_msg(bytes(encryptedDeviceChainKey), gnonce(bytes(group.PublicKey)), boxkey(e2c_priv(skv(localMemberPrivateKey)), e2c_pub(pkv(senderDevicePubKey)))))
+//@     && ret0.Counter == dck_ctr(sbox_msg(bytes(encryptedDeviceChainKey), gnonce(bytes(group.PublicKey)), boxkey(e2c_priv(skv(localMemberPrivateKey)), e2c_pub(pkv(senderDevicePubKey)))))
+//@   ensures [C05.decrypt.reject] !sbox_ok(bytes(encryptedDeviceChainKey), gnonce(bytes(group.PublicKey)), boxkey(e2c_priv(skv(localMemberPrivateKey)), e2c_pub(pkv(senderDevicePubKey)))) ==> ret1 != nil
+
+//@ # the property, as lemmas: the intended recipient recovers exactly what was sealed; anyone who opens it used the same DH pair and the same group nonce
+//@ lemma C05.exact: forall ck Bytes, c, gid Bytes, dev Bytes, mem Bytes :: 0 <= c && c < 18446744073709551616 ==>
+//@      sbox_ok(sbox_seal(enc_dck(ck, c), gid, boxkey(e2c_priv(dev), e2c_pub(pubof(mem)))), gid, boxkey(e2c_priv(mem), e2c_pub(pubof(dev))))
+//@   && dck_ck(sbox_msg(sbox_seal(enc_dck(ck, c), gid, boxkey(e2c_priv(dev), e2c_pub(pubof(mem)))), gid, boxkey(e2c_priv(mem), e2c_pub(pubof(dev))))) == ck
+//@   && dck_ctr(sbox_msg(sbox_seal(enc_dck(ck, c), gid, boxkey(e2c_priv(dev), e2c_pub(pubof(mem)))), gid, boxkey(e2c_priv(mem), e2c_pub(pubof(dev))))) == c
+//@   for C05
+//@ lemma C05.bound: forall m Bytes, gid Bytes, k Bytes, gid2 Bytes, k2 Bytes :: sbox_ok(sbox_seal(m, gid, k), gid2, k2) ==> gid == gid2 && k == k2 && sbox_msg(sbox_seal(m, gid, k), gid2, k2) == m
+//@   for C05
+
+//@ extern berty.tech/weshnet/v2/pkg/secretstore.newDeviceChainKey() (dck, err)
+//@   ensures err == nil ==> dck != nil && fresh(dck) && dck.Counter == 0 && len(dck.ChainKey) == 32
+
+//@ func (*secretStore).getOwnDeviceChainKeyForGroup
+//@   for C05, C09
+//@   requires s != nil ==> s.datastore != nil && s.logger != nil && unlocked(addr(s.messageMutex)) && s.preComputedKeysCount < 1000000
+//@   requires group != nil
+//@   modifies dsv(s.datastore), dsh(s.datastore), lockstate(addr(s.messageMutex)), lockgen(addr(s.messageMutex))
+//@   ensures [C05.own.unlock] s != nil ==> unlocked(addr(s.messageMutex))
+//@   ensures [C05.own.result] ret1 == nil ==> ret0 != nil
+
+//@ func (*secretStore).GetShareableChainKey
+//@   for C05
+//@   requires s != nil && s.datastore != nil && s.logger != nil && s.deviceKeystore != nil && unlocked(addr(s.messageMutex)) && s.preComputedKeysCount < 1000000
+//@   requires group != nil && targetMemberPublicKey != nil
+//@   modifies dsv(s.datastore), dsh(s.datastore), lockstate(addr(s.messageMutex)), lockgen(addr(s.messageMutex))
+//@   at encryptDeviceChainKey requires [C05.share.recipient] remoteMemberPubKey == targetMemberPublicKey && group == caller_group
+//@   ensures [C05.share.unlock] unlocked(addr(s.messageMutex))
+
+//@ func (*secretStore).RegisterChainKey
+//@   for C05, C02
+//@   requires s != nil ==> s.datastore != nil && s.logger != nil && unlocked(addr(s.messageMutex)) && s.preComputedKeysCount < 1000000
+//@   requires group != nil && senderDevicePublicKey != nil
+//@   at (*secretStore).registerChainKey requires [C05.register.sender] devicePublicKey == senderDevicePublicKey && group == caller_group
+//@   at (*secretStore).registerChainKey assumes deviceChainKey.Counter + s.preComputedKeysCount < 18446744073709551616
+//@   modifies dsv(s.datastore), dsh(s.datastore), lockstate(addr(s.messageMutex)), lockgen(addr(s.messageMutex))
+//@   ensures [C05.register.reject] ret0 == nil ==> s != nil
